@@ -324,15 +324,20 @@ def _widths(draw, nchar, max_parts=3):
 def _seq_text(draw, cells, data_type, gaps, breaks=()):
     """written form of consecutive cells; gaps: allow blanks inside; breaks: allowed line breaks inside"""
     if data_type == "continuous":
-        return " ".join(cells)
+        out = ""
+        for i, c in enumerate(cells):
+            if i:
+                out += draw(st.sampled_from(list(breaks))) if breaks and gaps and draw(st.integers(0, 3)) == 0 else " "
+            out += c
+        return out
     out = ""
     for i, c in enumerate(cells):
         if i and gaps:
             k = draw(st.integers(0, 11))
             if k == 0:
                 out += " "
-            elif k == 1 and breaks:
-                out += draw(st.sampled_from(list(breaks)))
+            elif k <= 3 and breaks:
+                out += draw(st.sampled_from(list(breaks)))     # a row continued on the next line
         out += c
     return out
 
@@ -354,7 +359,7 @@ def _nexus_matrix_block(draw, labels, label_texts, ntax_declared_before, fancy, 
     ntax = len(labels)
     data_type = draw(st.sampled_from(["dna", "dna", "dna", "protein", "standard", "standard", "rna", "continuous"]))
     nchar = draw(st.integers(1, max_chars))
-    interleaved = data_type != "continuous" and nchar >= 2 and draw(st.integers(0, 2)) == 0
+    interleaved = data_type != "continuous" and nchar >= 2 and draw(st.booleans())
     matchchar = data_type in ("dna", "protein") and ntax >= 2 and draw(st.integers(0, 3)) == 0
     rows, texts = draw(matrix_cells(data_type, ntax, nchar, multistate=data_type in ("dna", "standard") and fancy))
     kind = draw(st.sampled_from(["DATA", "CHARACTERS"])) if ntax_declared_before else "DATA"
@@ -425,7 +430,7 @@ def _nexus_matrix_block(draw, labels, label_texts, ntax_declared_before, fancy, 
     else:
         for r in order:
             out += "    " + label_texts[r] + draw(st.sampled_from([" ", "  ", "\t", "\n      "])) + \
-                   draw(_seq_text(texts[r], data_type, gaps=fancy, breaks=("\n      ", " [c] "))) + \
+                   draw(_seq_text(texts[r], data_type, gaps=fancy, breaks=("\n      ", "\n", "\n  ", " [c] "))) + \
                    draw(st.sampled_from(["\n", "\n", " ", "\n\n"]))
         out += draw(st.sampled_from(["  ;\n", ";\n", "\n;"]))
     out += draw(st.sampled_from([kw("END"), kw("END"), kw("ENDBLOCK")])) + draw(_opt_ws(fancy)) + ";\n"
@@ -534,13 +539,14 @@ UNKNOWN_BLOCKS = ["BEGIN PAUP;\n  set autoclose=yes;\n  log file=x.log;\nEND;\n"
 
 
 @st.composite
-def nexus_docs(draw, max_taxa=5, max_chars=8, max_trees=2, max_tree_blocks=3, fancy=True):
+def nexus_docs(draw, max_taxa=5, max_chars=8, max_trees=2, max_tree_blocks=3, fancy=True, n_matrices=None):
+    """n_matrices: force this many CHARACTERS/DATA blocks (default: drawn, mostly one)."""
     ntax = draw(st.integers(1, max_taxa))
     labels = draw(label_sets(ntax))
     label_texts = [draw(nexus_label_text(l)) for l in labels]
     sp = lambda: draw(_ws(fancy))
     kw = lambda w: draw(_kw(w, fancy))
-    n_matrix = draw(st.sampled_from([0, 1, 1, 1, 2]))
+    n_matrix = draw(st.sampled_from([0, 1, 1, 1, 2])) if n_matrices is None else n_matrices
     n_tree_blocks = draw(st.integers(0 if n_matrix else 1, max_tree_blocks))
     taxa_block = draw(st.integers(0, 3)) > 0
     titled = fancy and draw(st.integers(0, 3)) == 0     # TITLE / LINK on every block
@@ -681,6 +687,8 @@ def documents(max_len=400, schemas=SCHEMAS, large=False):
         parts.append(newick_docs(max_taxa=5 * k, max_trees=2 * k))
     if "nexus" in schemas:
         parts.extend([nexus_docs(max_taxa=4 * k, max_chars=6 * k, max_trees=2 * k)] * 3)
+        # several small matrices in one file (per-block FORMAT / DIMENSIONS state of the reader)
+        parts.extend([nexus_docs(max_taxa=3 * k, max_chars=4 * k, max_trees=1, max_tree_blocks=1, n_matrices=2)] * 2)
     if "phylip" in schemas:
         parts.append(phylip_docs(max_taxa=4 * k, max_chars=8 * k))
     if "fasta" in schemas:
